@@ -21,6 +21,7 @@ import (
 	"sort"
 	"strings"
 	"sync"
+	"syscall"
 
 	"github.com/hattya/go.sh/interp"
 	"github.com/hattya/go.sh/parser"
@@ -523,6 +524,8 @@ func c06SameModuloConsumed(o string, outcomes map[string][]int) bool {
 
 // c06RacePass runs the bodies free under the race detector in a separate process.
 func c06RacePass(w *W) {
+	runtime.LockOSThread() // Pdeathsig is bound to the creating thread
+	defer runtime.UnlockOSThread()
 	exe := filepath.Join(verifDir, "bin", "vcheck-race")
 	if _, err := os.Stat(exe); err != nil {
 		w.Note("race pass skipped: bin/vcheck-race not built")
@@ -530,7 +533,11 @@ func c06RacePass(w *W) {
 		return
 	}
 	for _, procs := range []string{"1", "2", "16"} {
+		// a free run that blocks forever is reported by the engine's watchdog under this name; the
+		// race-pass process dies with this worker
+		w.Announce("free-running pass under the race detector, GOMAXPROCS=" + procs)
 		cmd := exec.Command(exe, "racepass")
+		cmd.SysProcAttr = &syscall.SysProcAttr{Pdeathsig: syscall.SIGKILL}
 		cmd.Env = append(os.Environ(), "GOMAXPROCS="+procs, "GORACE=halt_on_error=0 exitcode=0")
 		out, err := cmd.CombinedOutput()
 		w.Count("race_pass_processes", 1)
